@@ -131,6 +131,41 @@ func (o concOp) run() (digest string) {
 			}
 		}
 		return fmt.Sprintf("large-ok-%c", fill)
+	case "decode-rejected":
+		// an input the decoder accepts and forcing rejects (a bool byte other than 0 / 1 in a lazily held container), forced
+		// with the library's own wire.EvaluateValue; then two valid maps alive at once
+		shapes := [][]byte{
+			{13, 0, 1, 3, 2, 0, 0, 0, 1, 1, 2, 0},                      // struct{1: map<i8,bool>{1: 2}}
+			{13, 0, 1, 2, 3, 0, 0, 0, 1, 2, 1, 0},                      // struct{1: map<bool,i8>{2: 1}}
+			{15, 0, 1, 2, 0, 0, 0, 1, 2, 0},                            // struct{1: list<bool>[2]}
+			{14, 0, 1, 2, 0, 0, 0, 1, 7, 0},                            // struct{1: set<bool>[7]}
+			{13, 0, 1, 3, 13, 0, 0, 0, 1, 1, 3, 2, 0, 0, 0, 1, 1, 9, 0}, // struct{1: map<i8, map<i8,bool>{1: 9}>}
+		}
+		in := shapes[int(o.seed%int64(len(shapes)))]
+		dv, err := binary.Default.Decode(bytes.NewReader(in), wire.TStruct)
+		if err != nil {
+			return "err@decode:" + err.Error()
+		}
+		res := "accepted"
+		if err := wire.EvaluateValue(dv); err != nil {
+			res = "rejected:" + errClass(err)
+		}
+		mk := func(base int8) []byte {
+			return []byte{13, 0, 1, 3, 3, 0, 0, 0, 2, byte(base), byte(base + 1), byte(base + 2), byte(base + 3), 0}
+		}
+		a, errA := binary.Default.Decode(bytes.NewReader(mk(int8(o.seed%50))), wire.TStruct)
+		b, errB := binary.Default.Decode(bytes.NewReader(mk(int8(o.seed%50)+60)), wire.TStruct)
+		if errA != nil || errB != nil {
+			return res + ";err-valid"
+		}
+		runtime.Gosched()
+		fa, _ := wj.Force(a)
+		fb, _ := wj.Force(b)
+		closeLazy(a)
+		closeLazy(b)
+		ja, _ := json.Marshal(wj.ToJSON(fa))
+		jb, _ := json.Marshal(wj.ToJSON(fb))
+		return res + ";" + sha(append(ja, jb...))
 	case "encode":
 		if err := binary.Default.Encode(v, &enc); err != nil {
 			return "err:" + err.Error()
@@ -264,7 +299,7 @@ func (o concOp) run() (digest string) {
 	return "unknown-kind"
 }
 
-var concKinds = []string{"encode", "decode", "stream-encode", "stream-decode", "gen-wire", "gen-stream", "envelope", "readrequest", "readrequest-legacy", "readrequest-bare", "decoderequest", "decode-large", "stream-decode-large"}
+var concKinds = []string{"encode", "decode", "stream-encode", "stream-decode", "gen-wire", "gen-stream", "envelope", "readrequest", "readrequest-legacy", "readrequest-bare", "decoderequest", "decode-large", "stream-decode-large", "decode-rejected"}
 
 type echoHandler struct{}
 
